@@ -528,7 +528,9 @@ func (r *vRun) writeVideo(ti int) {
 			verifAssert("C18", "write-exceeding-segmentmaxsize-fails", err != nil)
 			verifStopPath()
 		}
-		verifAssert("C18", "write-within-segmentmaxsize-succeeds", err == nil)
+		// a write may only be refused for the size limit when the units handed over so far (the one held back and, for
+		// an implementation that checks eagerly, the one being written) do not fit into the open segment
+		verifAssert("C18", "write-refused-only-for-the-size-limit", err == nil || uint64(g.openSize+len(t.held.payload)+len(u.payload)) > g.maxSize)
 	}
 	verifAssume(err == nil)
 	cut := false
